@@ -71,6 +71,8 @@ func main() {
 		runSMExhaustive(*out, *smMax, *smLen, *part, *parts, *smVariant)
 	case "rg":
 		runRG(*out, *seed, *n)
+	case "tb":
+		runTB(*out, *seed, *n)
 	default:
 		fmt.Fprintln(os.Stderr, "unknown component")
 		os.Exit(2)
@@ -82,6 +84,7 @@ func replayAny(o *Out, lines []string) {
 	var h *hand
 	smr := &smRunner{o: o}
 	var rgLines []string
+	tbr := &tbRunner{o: o}
 	e := &evRunner{o: o, prev: map[string]*evPrev{}, res: map[string][]*evPrev{}, rng: NewRng(1)}
 	for _, l := range lines {
 		f := strings.Fields(l)
@@ -119,6 +122,8 @@ func replayAny(o *Out, lines []string) {
 			}
 		case "sm":
 			smr.replay([]string{l})
+		case "tb":
+			tbr.replay([]string{l})
 		case "rg":
 			rgLines = append(rgLines, l)
 		case "ev":
